@@ -74,6 +74,20 @@ func ValueOf(v interface{}) reflect.Value {
 	return reflect.ValueOf(v)
 }
 
+// IsHashable returns true if v can be used as the key of a map. Types that
+// are comparable can still hold values that aren't, for example a tag whose
+// value is a list of expressions, so the only reliable test is to try.
+func IsHashable(v interface{}) (ok bool) {
+	defer func() {
+		if recover() != nil {
+			ok = false
+		}
+	}()
+	m := map[interface{}]struct{}{}
+	m[v] = struct{}{}
+	return true
+}
+
 func Convert(v reflect.Value, t reflect.Type, w b6.World) (reflect.Value, error) {
 	if !v.IsValid() {
 		return reflect.Value{}, fmt.Errorf("expected %s, found nothing", t)
